@@ -26,7 +26,7 @@ def _ok(x, order):
     try:
         xa = np.asarray(x)
         order = int(order)
-        return xa.ndim == 1 and xa.dtype.kind in 'fci' and np.all(np.isfinite(xa)) and np.any(xa) and \
+        return xa.ndim == 1 and xa.dtype.kind in 'fciu' and np.all(np.isfinite(xa)) and np.any(xa) and \
             1 <= order and len(xa) - order >= order
     except Exception:
         return False
@@ -44,6 +44,7 @@ def ls_fit(x, p, method):
 
 
 def judge_ls(c, tag, x, p, method, a, e, feats):
+    feats = dict(feats, dtype=np.asarray(x).dtype.name)
     D, a_ls, emin, cond = ls_fit(x, p, method)
     A, b = D[:, 1:], D[:, 0]
     a = np.asarray(a)
@@ -168,6 +169,8 @@ def cases(c):
         N = int(rng.integers(6, 129 if i % 3 == 0 else 48))
         out.append({'N': N, 'p': int(rng.integers(1, min(N // 2, 20) + 1)), 'cplx': int(rng.integers(0, 2)),
                     'kind': gen.pick(rng, KINDS), 'amp10': int(gen.pick(rng, [0, 0, 0, -3, -6, 3, 5, 6])), 'i': i})
+        if i % 7 == 2 and not out[-1]['cplx']:
+            out[-1].update(variant=gen.NARROW[(i // 7) % len(gen.NARROW)], amp10=0)     # wav / ADC samples
     # noiseless sums of p exponentials on an NFFT grid
     for i in range(200 if c.tier == 'quick' else 60000):
         p = int(rng.integers(1, 9))
@@ -180,17 +183,48 @@ def cases(c):
         lo, hi = (-grid // 2 + 1, grid // 2) if cplx else (2, grid // 2 - 1)
         bins = sorted(int(b) for b in rng.choice(np.arange(lo, hi, 3), size=half, replace=False))
         out.append({'N': N, 'p': p, 'cplx': cplx, 'kind': 'exact', 'grid': grid, 'bins': bins, 'i': i})
+    # noiseless sums of p closely spaced exponentials (spacing 0.008..0.03 cycles/sample): ill-conditioned data
+    # matrices (cond 1e2..1e10) with a zero residual, where a least-squares solver (error ~ eps*cond) and a
+    # normal-equation or rank-truncating one (eps*cond^2, O(1)) part company
+    for i in range(600 if c.tier == 'quick' else 60000):
+        cplx = int(rng.integers(0, 2))
+        p = int(rng.integers(2, 11))
+        if not cplx and p % 2:
+            p += 1
+        N = int(rng.integers(max(2 * p + 2, 16), 129))
+        out.append({'N': N, 'p': p, 'cplx': cplx, 'kind': 'cluster', 'sp1e4': int(rng.integers(80, 300)), 'i': i})
     return out
+
+
+def cluster(d, rng):
+    """(samples, exact prediction polynomial) of a noiseless sum of closely spaced exponentials."""
+    N, p, cplx = d['N'], d['p'], bool(d['cplx'])
+    K = p if cplx else p // 2
+    sp = d['sp1e4'] * 1e-4
+    f0 = rng.uniform(-0.45, 0.45 - sp * 1.2 * K) if cplx else rng.uniform(0.03, 0.47 - sp * 1.2 * K)
+    f = f0 + sp * np.arange(K) * rng.uniform(0.8, 1.2, K)
+    n = np.arange(N)
+    x = np.zeros(N, dtype=complex)
+    for ff in f:
+        x = x + rng.uniform(0.5, 2.0) * np.exp(1j * (2 * np.pi * ff * n + rng.uniform(0, 2 * np.pi)))
+    if not cplx:
+        x = 2 * x.real
+        f = np.concatenate([f, -f])
+    return x, np.poly(np.exp(2j * np.pi * f))[1:]
 
 
 def run_case(c, d):
     import spectrum
     N, p, cplx = d['N'], d['p'], bool(d['cplx'])
-    dd = {'kind': d['kind'], 'N': N, 'cplx': cplx}
-    if d['kind'] == 'exact':
-        dd.update(grid=d['grid'], bins=d['bins'])
-    x = gen.data(dd, c.rng(d, 'x'))
-    if np.asarray(x).dtype.kind == 'i' and (d.get('amp10') or d.get('i', 0) % 2):
+    truth = None
+    if d['kind'] == 'cluster':
+        x, truth = cluster(d, c.rng(d, 'x'))
+    else:
+        dd = {'kind': d['kind'], 'N': N, 'cplx': cplx, 'variant': d.get('variant')}
+        if d['kind'] == 'exact':
+            dd.update(grid=d['grid'], bins=d['bins'])
+        x = gen.data(dd, c.rng(d, 'x'))
+    if np.asarray(x).dtype.kind == 'i' and not d.get('variant') and (d.get('amp10') or d.get('i', 0) % 2):
         x = x.astype(float)                 # otherwise the samples stay int64
     if d.get('amp10'):
         x = x * 10.0 ** d['amp10']
@@ -200,12 +234,32 @@ def run_case(c, d):
     for name, fn, args in (('arcovar', spectrum.arcovar, (x, p)), ('modcovar', spectrum.modcovar, (x, p)),
                            ('arcovar_marple', spectrum.arcovar_marple, (x, p)),
                            ('modcovar_marple', spectrum.modcovar_marple, (x, p))):
-        if d['kind'] == 'exact' and name.endswith('marple'):
+        if d['kind'] in ('exact', 'cluster') and name.endswith('marple'):
             continue      # the recursions divide by the (zero) error of an exact fit
         try:
             res[name] = fn(*args)
         except Exception as exc:
             c.exception(name, exc, dict(feats, fn=name))
+    if d['kind'] == 'cluster' or (d['kind'] == 'exact' and len(d['bins']) * (1 if cplx else 2) == p):
+        if truth is None:
+            bins = d['bins'] if cplx else sorted(d['bins'] + [-b for b in d['bins']])
+            truth = np.poly(np.exp(2j * np.pi * np.array(bins) / d['grid']))[1:]
+        for name, method in (('arcovar', 'covariance'), ('modcovar', 'modified')):
+            if name not in res:
+                continue
+            cond = ls_fit(x, p, method)[3]
+            if not np.isfinite(cond) or cond > 1e10:
+                c.discard('%s:exact-coefficients:cond-guard(>1e10)' % name)
+                continue
+            # a backward-stable least-squares solution of a zero-residual problem is within ~eps*cond of the exact
+            # polynomial (measured on the unchanged tree: <= 2 eps cond over 5500 cases); allowance 200 eps cond
+            a = np.asarray(res[name][0])
+            c.compare('%s:exact-data-gives-the-exact-prediction-polynomial' % name, a,
+                      truth if np.iscomplexobj(a) else truth.real, 200 * 2.3e-16 * max(cond, 1.0) + 1e-13,
+                      dict(feats, fn=name, kind=d['kind']), scale=1 + float(np.max(np.abs(truth))),
+                      detail={'N': N, 'order': p, 'cond': cond})
+    if d['kind'] == 'cluster':
+        return
     if d['kind'] == 'exact':
         cond = ls_fit(x, p, 'covariance')[3]
         if cond > 1e6:
